@@ -216,13 +216,20 @@ impl<D> Serialize for DicomJson<&'_ InMemElement<D>> {
 
         match self.0.value() {
             DicomValue::Sequence(seq) => {
-                serializer.serialize_entry("Value", &DicomJson(seq.items()))?;
+                // an empty sequence has no "Value" member (PS3.18 F.2.5)
+                if !seq.items().is_empty() {
+                    serializer.serialize_entry("Value", &DicomJson(seq.items()))?;
+                }
             }
             DicomValue::PixelSequence(_seq) => {
                 //serializer.serialize_entry("Value", &DicomJson(seq))?;
             }
             DicomValue::Primitive(PrimitiveValue::Empty) => {
                 // no-op
+            }
+            DicomValue::Primitive(v) if v.calculate_byte_len() == 0 => {
+                // a zero-length value of any other variant is also empty:
+                // no "Value" nor "InlineBinary" member (PS3.18 F.2.5)
             }
             DicomValue::Primitive(v) => match vr {
                 VR::AE
